@@ -186,6 +186,105 @@ func runtimeCorpus() []string {
 	return out
 }
 
+// controlCorpus: nestings (depth <= 2) of the control constructs around each
+// kind of exit, followed by further code, with an operand pending around the
+// whole construct where the grammar allows it. Programs the analyzer rejects
+// (break outside a loop ...) are skipped by the driver.
+func controlCorpus() []string {
+	exits := []string{"break;", "continue;", "return 7;", "throw(\"boom\");", "println(1 / zero);", "println(1 % zero);", "println([1, 2][idx]);"}
+	wrap := func(kind string, body string, n int) string {
+		switch kind {
+		case "loop":
+			return fmt.Sprintf("let c%d = 0; loop { c%d += 1; if c%d > 2 { break; } println(\"it\", c%d); %s println(\"after-body\"); }", n, n, n, n, body)
+		case "while":
+			return fmt.Sprintf("let w%d = 0; while w%d < 2 { w%d += 1; %s println(\"after-body\"); }", n, n, n, body)
+		case "for":
+			return fmt.Sprintf("for i%d in 0..2 { println(\"for\", i%d); %s println(\"after-body\"); }", n, n, body)
+		case "block":
+			return fmt.Sprintf("{ let shadow = %d; %s println(shadow); }", n, body)
+		case "if":
+			return fmt.Sprintf("if one == 1 { %s println(\"then-rest\"); } else { println(\"else\"); }", body)
+		case "match":
+			return fmt.Sprintf("match one { 1 => { %s println(\"arm-rest\"); }, _ => { println(\"other\"); } }", body)
+		case "try":
+			return fmt.Sprintf("try { %s println(\"try-rest\"); } catch e%d { println(\"caught\", e%d.message, e%d.line, e%d.column); }", body, n, n, n, n)
+		case "catch":
+			return fmt.Sprintf("try { throw(\"inner\"); } catch e%d { println(e%d.message); %s println(\"catch-rest\"); }", n, n, body)
+		case "value":
+			return fmt.Sprintf("println(100 - try { %s 1 + thrower() } catch e%d { 5 });", body, n)
+		}
+		return body
+	}
+	kinds := []string{"loop", "while", "for", "block", "if", "match", "try", "catch", "value"}
+	var out []string
+	prog := func(stmts string, inCall bool) string {
+		pre := "fn thrower() -> int { throw(\"from-callee\"); 1 }\nfn leaves_try() -> int { try { return 1; } catch e { println(\"stale\"); } 0 }\n"
+		if inCall {
+			return pre + "fn callee() -> int { let one = 1; let zero = 0; let idx = 5; let local = 41; " + stmts + " println(\"callee-end\", local); 0 }\nfn main() { let keep = 3; println(10 + callee()); println(\"main-end\", keep); leaves_try(); println(keep); }"
+		}
+		return pre + "fn main() { let one = 1; let zero = 0; let idx = 5; let local = 41; println(\"start\"); " + strings.ReplaceAll(stmts, "return 7;", "return;") + " println(\"end\", local); leaves_try(); throw(\"late\"); }"
+	}
+	for _, ex := range exits {
+		for _, k1 := range kinds {
+			out = append(out, prog(wrap(k1, ex, 1), false), prog(wrap(k1, ex, 1), true))
+			for _, k2 := range kinds {
+				out = append(out, prog(wrap(k2, wrap(k1, ex, 1), 2), true))
+			}
+		}
+	}
+	out = append(out,
+		"fn f() -> int { try { return 1; } catch e { println(\"wrong handler\"); } 0 }\nfn main() { f(); throw(\"boom\"); }",
+		"fn f() -> int { try { return 1; } catch e { println(\"wrong handler\"); } 0 }\nfn main() { let r = try { f(); throw(\"boom\"); 1 } catch e { 2 }; println(r); }",
+		"fn g() -> int { throw(\"x\"); 1 }\nfn main() { println(10 - try { 1 + g() } catch e { 2 }); }",
+		"fn g() -> int { throw(\"x\"); 1 }\nfn h() -> int { 10 - try { 1 + g() } catch e { 2 } }\nfn main() { println(h()); }",
+		"fn g(i: int) -> int { if i >= 0 { throw(\"x\"); } 1 }\nfn main() { let n = 0; for i in 0..600 { try { let x = 1 + g(i); n += x; } catch e { n += 1; } } println(n); }",
+		"fn main() { try { throw(\n\n\"multi\"\n\n); } catch e { println(e.line, e.column, e.message, e.filename); } }",
+		"fn d(n: int) -> int { if n == 0 { 0 } else { 1 + d(n - 1) } }\nfn main() { println(d(50)); println(d(200)); }",
+		"fn d(n: int) -> int { let a = n; let b = n; let c = n; if n == 0 { 0 } else { a + b + c + d(n - 1) } }\nfn main() { println(d(90)); }",
+		"fn main() { let f = fn() -> int { 1 }; let s = 0; for i in 0..300 { s += f(); } println(s); }",
+	)
+	return out
+}
+
+// valueCorpus: programs around equality, copying, indexing and casts of
+// structured values.
+func valueCorpus() []string {
+	vals := []string{"1", "1.5", "true", "\"s\"", "[1, 2]", "[1, 2, 3]", "[]", "1..3", "1..=3", "?1", "?[1]", "none", "new { a: 1, b: 2 }", "new { a: 1, c: 3 }", "new { a: 1 }", "[?[1]]", "[1..=3]", "[new { a: [1] }]"}
+	var out []string
+	for _, a := range vals {
+		for _, b := range vals {
+			out = append(out, fmt.Sprintf("fn main() { let a = %s; let b = %s; println(a == b, b == a, a != b); }", a, b))
+		}
+		out = append(out, fmt.Sprintf("fn main() { let l = [%s]; for x in l { println(x); } println(l == l, l); }", a))
+		out = append(out, fmt.Sprintf("fn main() { let a = %s; let l = [a, a]; for x in l { println(x == a); } }", a))
+	}
+	for _, idx := range []string{"0", "2", "3", "(0-1)", "(0-3)", "(0-4)", "(0-9223372036854775807-1)", "9223372036854775807"} {
+		out = append(out, fmt.Sprintf("fn i() -> int { %s }\nfn main() { let l = [1, 2, 3]; println(l[i()]); }", idx))
+		out = append(out, fmt.Sprintf("fn i() -> int { %s }\nfn main() { let e: [int] = []; println(e[i()]); }", idx))
+		out = append(out, fmt.Sprintf("fn i() -> int { %s }\nfn main() { let s = \"abc\"; println(s[i()]); }", idx))
+		out = append(out, fmt.Sprintf("fn i() -> int { %s }\nfn main() { println(256 >> i(), 1 << i(), (0-8) >> i()); }", idx))
+	}
+	jsons := []string{"null", "1", "1.5", "true", "\\\"s\\\"", "[1,2]", "[true,false]", "[1.5]", "{\\\"a\\\":1}", "{\\\"a\\\":1.5}", "{\\\"a\\\":1,\\\"b\\\":null}", "{\\\"a\\\":{\\\"b\\\":[1]}}", "[null]", "[[1],[2]]"}
+	types := []string{"int", "float", "bool", "str", "[int]", "[float]", "[bool]", "?int", "?[int]", "{ a: int }", "{ a: ?int }", "{ a: int, b: ?int }", "{ a: float }", "[?int]", "{ a: { b: [int] } }", "{ ? }", "[{ a: int }]"}
+	for _, j := range jsons {
+		for _, t := range types {
+			out = append(out, fmt.Sprintf("fn main() { let v = \"%s\".parse_json() as %s; println(v); }", j, t))
+			if strings.HasPrefix(t, "[") || strings.HasPrefix(t, "{") {
+				out = append(out, fmt.Sprintf("fn main() { let v = \"%s\".parse_json() as %s; println(v.to_json()); }", j, t))
+			}
+			out = append(out, fmt.Sprintf("fn main() { let v: %s = \"%s\".parse_json(); println(v); }", t, j))
+		}
+	}
+	out = append(out,
+		"fn main() { let l = [?[1]]; for o in l { o.unwrap().push(2); } println(l); }",
+		"fn main() { let l = [[1]]; for o in l { o.push(2); } println(l); }",
+		"fn main() { let o = new { a: [1] }; let l = [o]; for x in l { x.a.push(2); } println(l, o); }",
+		"fn main() { let v = \"{\\\"a\\\":1}\".parse_json() as { a: int, b: ?int }; println(v.b); }",
+		"fn main() { let v = \"null\".parse_json() as int; println(v + 1); }",
+	)
+	return out
+}
+
 func exampleCorpus(root string) []string {
 	var out []string
 	for _, pat := range []string{"examples/*.hms", "tests/*.hms", "tests/*/*.hms", "test/*.hms"} {
@@ -218,7 +317,7 @@ func racMatches(o *Obligation, line string) bool {
 		name = name[:i]
 	}
 	switch o.Kind {
-	case "post":
+	case "post", "assert":
 		return line == "RAC-FAIL "+name
 	case "inv-init", "inv-keep":
 		n := strings.Replace(strings.Replace(name, "#inv-init:", "#inv:", 1), "#inv-keep:", "#inv:", 1)
@@ -361,6 +460,14 @@ func replayAll(p *Prog, failed []*Obligation) map[*Obligation]*ReplayResult {
 		for _, t := range runtimeCorpus() {
 			corpus = append(corpus, t)
 			origin = append(origin, "operator x boundary-operand programs")
+		}
+		for _, t := range controlCorpus() {
+			corpus = append(corpus, t)
+			origin = append(origin, "control-construct nestings x exits")
+		}
+		for _, t := range valueCorpus() {
+			corpus = append(corpus, t)
+			origin = append(origin, "structured-value programs (equality, copying, indexing, casts)")
 		}
 	}
 	for _, t := range exampleCorpus(p.Root) {
